@@ -27,11 +27,11 @@ RULE = ('(a) sweep: (module, attribute) pairs of every module loaded in the daem
 ASSUMPTIONS = [
   'the allow-list is the one in lib/carbon/util.py (copy_reg._reconstructor, __builtin__.object); those two pairs may load or be rejected',
   'the audit hook watches import of canary modules and os.system/os.exec/os.posix_spawn/os.fork/subprocess.Popen/socket.connect/ctypes.dlopen only (codec imports by the unpickler are legitimate)',
-  'frozenset and bytearray count as plain data (protocol 4/5 opcodes build them without resolving a global)',
+  'frozenset, bytearray and memoryview (protocol 4/5 opcodes FROZENSET, BYTEARRAY8, READONLY_BUFFER) count as plain data: they are built from in-band bytes without resolving a global',
 ]
 SIGNATURES = ()
 
-PLAIN = (type(None), bool, int, float, str, bytes, tuple, list, dict, set, frozenset, bytearray, complex)
+PLAIN = (type(None), bool, int, float, str, bytes, tuple, list, dict, set, frozenset, bytearray, complex, memoryview)
 GLOBAL_OPS = {'GLOBAL', 'STACK_GLOBAL', 'INST', 'OBJ', 'NEWOBJ', 'NEWOBJ_EX', 'REDUCE', 'BUILD', 'EXT1', 'EXT2', 'EXT4'}
 
 _state = {'armed': False, 'events': [], 'hook': False, 'canary': None}
